@@ -20,7 +20,7 @@ func init() {
 		Assumptions: []string{
 			"the message of a fmt.Errorf-wrapped ServiceError is the inner ServiceError's message (MergeErrors documents that it converts through errors.As)",
 			"'cause' = the Go error a ServiceError was built from (NewServiceError(err,..) or a plain error converted by the merge)",
-			"gRPC multi-flag errors may map to the code of any one of the set flags: the documentation fixes no precedence",
+			"for gRPC errors with several flags set the table is the one grpc/error.go EncodeError implements at this commit (Temporary, else Timeout, else Fault, else Unknown): callers key retries on the code, so the precedence is taken as part of the documented mapping, as the HTTP one is",
 		},
 	}
 }
